@@ -287,4 +287,178 @@ theorem dataFragmentDec_never_panics (data : Bytes) : dataFragmentDec data ≠ p
   · simp [h0]
   · rw [if_neg h0, slice_ok data 0 2 (by omega), index_ok data 1 (by omega), slice_ok data 2 data.length (by omega)]
     simp
+/-! ### CFList and join-accept payload: the index expressions never leave the buffer and equal the total decoders -/
+
+theorem three_bytes (data : Bytes) (p : Nat) (h : p + 2 < data.length) :
+    [data.getD p 0, data.getD (p + 1) 0, data.getD (p + 2) 0] = (data.drop p).take 3 := by
+  apply List.ext_getElem?
+  intro j
+  rcases j with _ | _ | _ | j
+  · simp [List.getElem?_take, List.getElem?_drop, List.getD]; rw [List.getElem?_eq_getElem (by omega)]; rfl
+  · simp [List.getElem?_take, List.getElem?_drop, List.getD]; rw [List.getElem?_eq_getElem (by omega)]; rfl
+  · simp [List.getElem?_take, List.getElem?_drop, List.getD]; rw [List.getElem?_eq_getElem (by omega)]; rfl
+  · simp [List.getElem?_take]; omega
+
+theorem cfChannelsLoop_eq (data : Bytes) (k i : Nat) (h : 3 * (i + k) ≤ data.length) :
+    cfChannelsLoop data k i = ok ((List.range k).map (fun j => freq100Dec ((data.drop (3 * (i + j))).take 3))) := by
+  induction k generalizing i with
+  | zero => rfl
+  | succ k ih =>
+    simp only [cfChannelsLoop]
+    rw [index_ok data (i * 3) (by omega), index_ok data (i * 3 + 1) (by omega), index_ok data (i * 3 + 2) (by omega)]
+    simp only [Outcome.ok_bind]
+    rw [ih (i + 1) (by omega)]
+    simp only [Outcome.ok_bind, List.range_succ_eq_map, List.map_cons, List.map_map]
+    congr 2
+    · rw [three_bytes data (i * 3) (by omega)]
+      have : i * 3 = 3 * (i + 0) := by omega
+      rw [this]
+    · apply List.map_congr_left; intro j _
+      simp only [Function.comp]
+      have : 3 * (i + 1 + j) = 3 * (i + (j + 1)) := by omega
+      rw [this]
+
+theorem cfChannelsDec_eq (data : Bytes) : cfChannelsDec data = LW.cfChannelsDec (List.replicate 5 0) data := by
+  unfold cfChannelsDec LW.cfChannelsDec
+  by_cases h1 : data.length > 15
+  · simp [h1]
+  · simp only [h1, if_false]
+    by_cases h2 : (data.length % 3 != 0) = true
+    · simp [h2]
+    · simp only [h2, if_false]
+      rw [cfChannelsLoop_eq data (data.length / 3) 0 (by omega)]
+      simp
+
+theorem pairsLE_drop (d : Bytes) (k i : Nat) (h : 2 * (i + k) ≤ d.length) (hk : d.length < 2 * (i + k) + 2) :
+    cfMasksSlices d k i = ok (pairsLE (d.drop (2 * i))) := by
+  induction k generalizing i with
+  | zero =>
+    simp only [cfMasksSlices]
+    have hl : (d.drop (2 * i)).length < 2 := by rw [List.length_drop]; omega
+    cases hd : d.drop (2 * i) with
+    | nil => rfl
+    | cons a t =>
+      cases t with
+      | nil => rfl
+      | cons b t' => rw [hd] at hl; simp at hl; omega
+  | succ k ih =>
+    simp only [cfMasksSlices]
+    rw [slice_ok d (i * 2) (i * 2 + 2) (by omega)]
+    simp only [Outcome.ok_bind]
+    have e2 : i * 2 + 2 - i * 2 = 2 := by omega
+    rw [e2]
+    have hl : 2 ≤ (d.drop (i * 2)).length := by rw [List.length_drop]; omega
+    cases hd : d.drop (i * 2) with
+    | nil => rw [hd] at hl; simp at hl
+    | cons a t =>
+      cases t with
+      | nil => rw [hd] at hl; simp at hl
+      | cons b t' =>
+        have hdd : d.drop (2 * (i + 1)) = t' := by
+          have : 2 * (i + 1) = i * 2 + 2 := by omega
+          rw [this, ← List.drop_drop, hd]; rfl
+        have htk : List.take 2 (a :: b :: t') = [a, b] := rfl
+        rw [htk]
+        have hcm : chMaskDec 0 [a, b] = ok (BitVec.ofNat 16 (leNat [a, b])) := rfl
+        rw [hcm]
+        simp only [Outcome.ok_bind]
+        rw [ih (i + 1) (by omega) (by omega), hdd]
+        have : 2 * i = i * 2 := by omega
+        rw [this, hd]
+        simp [pairsLE]
+
+theorem pairsLE_take_even (data : Bytes) : pairsLE (data.take (data.length - data.length % 2)) = pairsLE data := by
+  induction data using pairsLE.induct with
+  | case1 a b rest ih =>
+    have e : (a :: b :: rest).length - (a :: b :: rest).length % 2 = (rest.length - rest.length % 2) + 2 := by
+      simp only [List.length_cons]; omega
+    rw [e]
+    simp only [List.take_succ_cons, pairsLE, ih]
+  | case2 l hne =>
+    match l, hne with
+    | [], _ => rfl
+    | [a], _ => rfl
+    | a :: b :: r, hne => exact absurd rfl (hne a b r)
+
+theorem cfMasksDec_eq (data : Bytes) : cfMasksDec data = LW.cfMasksDec [] data := by
+  unfold cfMasksDec LW.cfMasksDec
+  by_cases h1 : data.length > 15
+  · simp [h1]
+  · simp only [h1, if_false]
+    rw [slice_ok data 0 _ (by omega)]
+    simp only [Outcome.ok_bind, List.drop_zero, Nat.sub_zero]
+    have hl : (data.take (data.length - data.length % 2)).length = data.length - data.length % 2 := by simp
+    rw [pairsLE_drop _ _ 0 (by rw [hl]; omega) (by rw [hl]; omega)]
+    simp only [Outcome.ok_bind, Nat.mul_zero, List.drop_zero, pairsLE_take_even]
+
+
+theorem cfListDec_eq (data : Bytes) : cfListDec data = CFList.dec data := by
+  unfold cfListDec CFList.dec
+  by_cases h : (data.length != 16) = true
+  · simp [h]
+  · have hl : data.length = 16 := by simpa using h
+    simp only [h, if_false]
+    rw [index_ok data 15 (by omega), slice_ok data 0 15 (by omega)]
+    simp only [Outcome.ok_bind, List.drop_zero, Nat.sub_zero, cfMasksDec_eq, cfChannelsDec_eq]
+
+theorem joinAcceptDec_eq (data : Bytes) : joinAcceptDec data = JoinAccept.dec {} data := by
+  unfold joinAcceptDec JoinAccept.dec
+  by_cases h : data.length ≠ 12 ∧ data.length ≠ 28
+  · simp [h]
+  · have hl : data.length = 12 ∨ data.length = 28 := by omega
+    simp only [h, if_false]
+    rw [slice_ok data 0 3 (by omega), slice_ok data 3 6 (by omega), slice_ok data 6 10 (by omega), slice_ok data 10 11 (by omega)]
+    simp only [Outcome.ok_bind, show 11 - 10 = 1 from rfl, index_take_drop data 10 (by omega)]
+    rw [index_ok data 11 (by omega)]
+    simp only [Outcome.ok_bind, List.drop_zero, Nat.sub_zero, show 6 - 3 = 3 from rfl, show 10 - 6 = 4 from rfl]
+    by_cases h28 : (data.length == 28) = true
+    · have : data.length = 28 := by simpa using h28
+      simp only [h28, if_true]
+      rw [slice_ok data 12 data.length (by omega)]
+      simp only [Outcome.ok_bind, cfListDec_eq]
+      rw [List.take_of_length_le (by simp)]
+    · simp only [h28, Bool.false_eq_true, if_false]
+
+theorem cfMasks_ne_panic (p : List (BitVec 16)) (d : Bytes) : LW.cfMasksDec p d ≠ panic := by
+  unfold LW.cfMasksDec; split <;> simp
+
+theorem cfChannels_ne_panic (p : List (BitVec 32)) (d : Bytes) : LW.cfChannelsDec p d ≠ panic := by
+  unfold LW.cfChannelsDec
+  split
+  · simp
+  · split <;> simp
+
+theorem cfListTotal_ne_panic (d : Bytes) : CFList.dec d ≠ panic := by
+  unfold CFList.dec
+  split
+  · simp
+  · simp only
+    split
+    · cases h : LW.cfMasksDec [] (d.take 15) with
+      | ok m => simp [Outcome.bind]
+      | err => simp [Outcome.bind]
+      | panic => exact absurd h (cfMasks_ne_panic _ _)
+    · cases h : LW.cfChannelsDec (List.replicate 5 0) (d.take 15) with
+      | ok m => simp [Outcome.bind]
+      | err => simp [Outcome.bind]
+      | panic => exact absurd h (cfChannels_ne_panic _ _)
+
+theorem cfList_never_panics (d : Bytes) : cfListDec d ≠ panic := by
+  rw [cfListDec_eq]; exact cfListTotal_ne_panic d
+
+theorem joinAcceptTotal_ne_panic (p : JoinAccept) (d : Bytes) : JoinAccept.dec p d ≠ panic := by
+  unfold JoinAccept.dec
+  split
+  · simp
+  · simp only
+    split
+    · cases h : CFList.dec (d.drop 12) with
+      | ok l => simp [Outcome.bind]
+      | err => simp [Outcome.bind]
+      | panic => exact absurd h (cfListTotal_ne_panic _)
+    · simp
+
+theorem joinAccept_never_panics (d : Bytes) : joinAcceptDec d ≠ panic := by
+  rw [joinAcceptDec_eq]; exact joinAcceptTotal_ne_panic {} d
+
 end LW.Checked
